@@ -166,10 +166,12 @@ class _Limit(object):
         trimming factor is defined as a parameter.
         """
         try:
-            if np.any(np.isnan(der)):
-                p25, median, p75 = np.nanpercentile(der, [25,50, 75], axis=0) 
+            percentile = np.nanpercentile if np.any(np.isnan(der)) else np.percentile
+            if np.iscomplexobj(der):  # percentile does not accept complex input
+                p25, median, p75 = (percentile(der.real, [25, 50, 75], axis=0)
+                                    + 1j * percentile(der.imag, [25, 50, 75], axis=0))
             else:
-                p25, median, p75 = np.percentile(der, [25,50, 75], axis=0)
+                p25, median, p75 = percentile(der, [25, 50, 75], axis=0)
 
             iqr = np.abs(p75 - p25)
         except ValueError as msg:
